@@ -23,6 +23,8 @@ PLAN = {
         "kind:extreme": 0.002, "kind:long": 0.001, "kind:long-wide-alphabet": 0.001, "kind:near-miss:digits-dropped": 0.0003,
         "kind:near-miss:insert": 0.0002, "kind:printer-random-bits": 0.001, "kind:printer-random-decimal": 0.002,
         "unit@exponent:real-overflow/issue": 0.0003, "reset@order:integer-out-of-range/issue": 0.0003,
+        "printer-locale:numpunct-facet": 0.002, "kind:cn-context": 0.0003, "cn-context:bvar-degree:combined-overflow": 0.00001,
+        "history-entry:global-numpunct-locale": 0.0005,
         "history:range-error-before": 0.005, "history:same-document-range-error": 0.003, "history:none": 0.5,
         "history-entry:exponent-overflow": 0.001, "history-entry:multiplier-underflow": 0.001, "history-entry:order-huge-integer": 0.001,
         "history-entry:printer-subnormal-reparsed": 0.001, "history-entry:cn-overflow": 0.0002, "history-entry:analyser-generator-tiny-initial-value": 0.0002,
@@ -31,6 +33,6 @@ PLAN = {
 CLAIM = {
     "engine": "bounded-exhaustive tape enumeration + rapidcheck-tape",
     "technique": "bounded-exhaustive enumeration of all strings up to length 5 over a 10-symbol alphabet in every numeric position against regular-expression reference recognisers, plus property-based testing of longer strings, near-misses, extreme magnitudes and printer round trips",
-    "text": "Every string of length 0..5 over {0,1,9,+,-,.,e,E,blank,a} (111 111 strings, digits being one class in every recogniser) is placed in each of the eight numeric positions of a small CellML 2.0 document and sent through the strict Parser and the Validator; verdict, converted value and out-of-range reporting are compared with two regular expressions written from the statement plus strtod/strtoll, and any exception is a failure. 'exhaustive: true' means this space was completed (x_exhaustive_space_bound<b> gives the bounds and whether cn elements shared MathML blocks). Recognition must not depend on what was recognised before: short strings (exhaustively) and random strings are also observed after a tape-chosen history of range-error texts went through the services in the same process, and inside a document that contains such a text; both observations must agree with each other and with the reference, and each random case runs in a forked child so that a failure reproduces in a fresh process. A random tier adds strings up to 40 symbols, near-misses, extreme magnitudes and finite doubles/ints sent through Printer -> strict Parser and compared to 15 significant digits. Within the enumerated space the result is a proof by cases for these positions; beyond it (longer strings, other digits' positions) it is sampling.",
-    "note": "Trusts glibc regexec/strtod/strtoll as the reference, the C locale, and that the validator reports at most one MATH_CN_FORMAT issue per cn element (used only by the batched cn observation; any inconclusive block is re-run one document per string; the thorough tier also runs the whole space unbatched). Not judged: empty prefix/initial_value (same object state as absent), cn text that is a real with an exponent part (specification: basic real only; statement: 'cn content'), value conversion of an out-of-range initial_value (kept as text by Parser/Validator).",
+    "text": "Every string of length 0..5 over {0,1,9,+,-,.,e,E,blank,a} (111 111 strings, digits being one class in every recogniser) is placed in each of the eight numeric positions of a small CellML 2.0 document and sent through the strict Parser and the Validator; verdict, converted value and out-of-range reporting are compared with two regular expressions written from the statement plus strtod/strtoll, and any exception is a failure. 'exhaustive: true' means this space was completed (x_exhaustive_space_bound<b> gives the bounds and whether cn elements shared MathML blocks). Recognition must not depend on what was recognised before: short strings (exhaustively) and random strings are also observed after a tape-chosen history of range-error texts went through the services in the same process, and inside a document that contains such a text; both observations must agree with each other and with the reference, and each random case runs in a forked child so that a failure reproduces in a fresh process. The combined value of an e-notation cn (significand x 10^exponent) is judged as well, also with the cn as bvar/root degree, logbase and power exponent through Analyser and Generator; the printer leg includes infinite/NaN values (the validator must report them) and printing under a global C++ locale with decimal comma and digit grouping. A random tier adds strings up to 40 symbols, near-misses, extreme magnitudes and finite doubles/ints sent through Printer -> strict Parser and compared to 15 significant digits. Within the enumerated space the result is a proof by cases for these positions; beyond it (longer strings, other digits' positions) it is sampling.",
+    "note": "Trusts glibc regexec/strtod/strtoll as the reference, the C locale, and that the validator reports at most one MATH_CN_FORMAT issue per cn element (used only by the batched cn observation; any inconclusive block is re-run one document per string; the thorough tier also runs the whole space unbatched). Not judged: cn text that is a real with an exponent part (specification: basic real only; statement: 'cn content').",
 }
